@@ -1,248 +1,277 @@
 import CalVerif.Lemmas.PtgBytes
-/-! Which panics the decoders can raise (Props/C14 `xls_panics_classified`, `xlsb_panics_classified`). -/
+/-! Totality of the decoders (Props/C14 `parseFormulaXls_no_panic`, `parseFormulaXlsb_no_panic`, `…_fuel`):
+    no arm panics (every token length is checked, table lookups use `get`), the offset edits cannot panic on the
+    states a run reaches (`applyAct_inv`), and every arm consumes its input, so the loop budget suffices. -/
 namespace Formula
 open Ptg
 
-/-- the only panics a decoder arm can raise: a short slice, `iname - 1`, the (unreachable) table index -/
-def OkPanics {α : Type} (x : Res α) : Prop :=
-  ∀ m, x = .panic m → m = "slice" ∨ m = "iname - 1" ∨ m = "FTAB_ARGC index"
+/-- a decoder arm applied to the bytes `r`: it does not panic, does not run out of fuel, and what it leaves is
+    no longer than `r` -/
+def Good {α : Type} (r : Bytes) (x : Res (α × Bytes)) : Prop :=
+  (∀ m, x ≠ .panic m) ∧ x ≠ .outOfFuel ∧ ∀ a r', x = .ok (a, r') → r'.length ≤ r.length
 
-@[simp] theorem okp_ok {α : Type} (a : α) : OkPanics (Res.ok a) := by intro m h; simp at h
-@[simp] theorem okp_err {α : Type} (e : String) : OkPanics (Res.err e : Res α) := by intro m h; simp at h
-@[simp] theorem okp_slice {α : Type} : OkPanics (Res.panic "slice" : Res α) := by
-  intro m h; simp at h; exact Or.inl h.symm
-@[simp] theorem okp_iname {α : Type} : OkPanics (Res.panic "iname - 1" : Res α) := by
-  intro m h; simp at h; exact Or.inr (Or.inl h.symm)
-@[simp] theorem okp_argc {α : Type} : OkPanics (Res.panic "FTAB_ARGC index" : Res α) := by
-  intro m h; simp at h; exact Or.inr (Or.inr h.symm)
-theorem okp_need {α : Type} (r : Bytes) (n : Nat) (f : Unit → Res α) (h : OkPanics (f ())) :
-    OkPanics (need r n >>= f) := by
-  unfold need; split <;> simp [h]
-theorem okp_ite {α : Type} (c : Prop) [Decidable c] (x y : Res α) (hx : OkPanics x) (hy : OkPanics y) :
-    OkPanics (if c then x else y) := by split <;> assumption
-
-theorem bind_need_panic' {α : Type} (r : Bytes) (n : Nat) (f : Unit → Res α) (m : String)
-    (h : (need r n >>= f) = .panic m) : m = "slice" ∨ f () = .panic m := by
-  unfold need at h
-  split at h
-  · simp at h; exact Or.inl h.symm
-  · simp at h; exact Or.inr h
-
-/-- a checked read never panics: a panic of the whole comes from what follows -/
-theorem bind_needLen_panic {α : Type} (typ : String) (r : Bytes) (n : Nat) (f : Unit → Res α) (m : String)
-    (h : (needLen typ r n >>= f) = .panic m) : f () = .panic m := by
-  unfold needLen at h
-  split at h
-  · simp at h
+theorem good_ok {α : Type} (r : Bytes) (a : α) (r' : Bytes) (h : r'.length ≤ r.length) : Good r (Res.ok (a, r')) := by
+  refine ⟨by simp, by simp, ?_⟩
+  intro a' r'' he; simp at he; rw [← he.2]; exact h
+theorem good_drop {α : Type} (r : Bytes) (a : α) (k : Nat) : Good r (Res.ok (a, r.drop k)) :=
+  good_ok r a _ (by simp)
+theorem good_same {α : Type} (r : Bytes) (a : α) : Good r (Res.ok (a, r)) := good_ok r a r (Nat.le_refl _)
+theorem good_err {α : Type} (r : Bytes) (e : String) : Good r (Res.err e : Res (α × Bytes)) :=
+  ⟨by simp, by simp, by simp⟩
+theorem good_need {α : Type} (f : Bool) (r b : Bytes) (n : Nat) (k : Unit → Res (α × Bytes)) (h : Good r (k ())) :
+    Good r (need f b n >>= k) := by
+  unfold need; split
+  · exact good_err r _
   · simpa using h
+theorem good_ite {α : Type} (r : Bytes) (c : Prop) [Decidable c] (x y : Res (α × Bytes)) (hx : Good r x) (hy : Good r y) :
+    Good r (if c then x else y) := by split <;> assumption
+/-- an arm that first drops bytes -/
+theorem good_of_drop {α : Type} (r : Bytes) (k : Nat) (x : Res (α × Bytes)) (h : Good (r.drop k) x) : Good r x := by
+  refine ⟨h.1, h.2.1, ?_⟩
+  intro a r' he
+  have := h.2.2 a r' he
+  simp at this; omega
 
-theorem decodeFuncFixed_okp (r : Bytes) (c : Bool) : OkPanics (decodeFuncFixed r c) := by
+theorem decodeFuncFixed_good (r : Bytes) (c : Bool) : Good r (decodeFuncFixed r c) := by
   unfold decodeFuncFixed
-  apply okp_need
-  apply okp_ite
-  · exact okp_err _
-  · split <;> simp
+  apply good_need
+  by_cases hlt : u16 r 0 ≥ Gen.ftabLen
+  · simp only [hlt, if_true]; exact good_err r _
+  · have hs : Gen.ftabArgc.size = Gen.ftabLen := by decide +kernel
+    have hi : u16 r 0 < Gen.ftabArgc.size := by omega
+    simp only [hlt, if_false, hi, Array.getElem?_eq_getElem]
+    exact good_drop r _ 2
 
-theorem decodeFuncVar_okp (r : Bytes) (c : Bool) : OkPanics (decodeFuncVar r c) := by
+theorem decodeFuncVar_good (r : Bytes) (c : Bool) : Good r (decodeFuncVar r c) := by
   unfold decodeFuncVar
-  apply okp_need
-  exact okp_ok _
+  apply good_need
+  exact good_drop r _ 3
 
-theorem decodeXls_okp (ctx : Ctx) (b : Bool) (p : Nat) (r : Bytes) : OkPanics (decodeXls ctx b p r) := by
+theorem decodeXls_good (ctx : Ctx) (b : Bool) (p : Nat) (r : Bytes) : Good r (decodeXls ctx b p r) := by
   unfold decodeXls
   split
-  all_goals try (first | exact okp_ok _ | exact okp_err _ | exact decodeFuncVar_okp _ _)
-  all_goals try (apply okp_need; first | exact okp_ok _ | exact okp_err _)
-  case h_34 => apply okp_need; apply okp_need; exact okp_ok _
+  all_goals try (first | exact good_same r _ | exact good_err r _ | exact decodeFuncVar_good _ _ | exact decodeFuncFixed_good _ _)
+  all_goals try (apply good_need; first | exact good_drop r _ _ | exact good_err r _)
+  case h_34 => apply good_need; apply good_need; exact good_drop r _ _
   case h_36 =>
-    apply okp_need
+    apply good_need
     dsimp only
+    apply good_of_drop r 1
     split
-    all_goals repeat (first | exact okp_ok _ | exact okp_err _ | apply okp_need | apply okp_ite)
-  case h_37 => apply okp_need; split <;> simp
-  case h_47 => exact decodeFuncFixed_okp _ _
-  case h_48 => exact decodeFuncFixed_okp _ _
-  case h_49 => exact decodeFuncFixed_okp _ _
-  case h_50 => apply okp_need; apply okp_ite <;> simp
-  case h_51 => apply okp_need; apply okp_ite <;> simp
-  case h_52 => apply okp_need; apply okp_ite <;> simp
+    all_goals repeat (first | exact good_drop _ _ _ | exact good_err _ _ | apply good_need | apply good_ite)
+  case h_37 => apply good_need; split; exact good_drop r _ _; exact good_err r _
 
-/-- the panics the xls decoder can raise at all: unchecked slices of `rgce`, `iname - 1`, and the two unchecked
-    table indices. In particular never a `split_off` / `insert` / slice-of-`fargs` / offset-subtraction panic. -/
-def XlsPanic (m : String) : Prop := m = "slice" ∨ m = "iname - 1" ∨ m = "FTAB_ARGC index" ∨ m = "FTAB index"
+theorem sheetless_good {α : Type} (r : Bytes) (x : Res (α × Bytes)) (h : Good r x) : Good r x := h
 
-theorem runXls_panic (ctx : Ctx) (fuel : Nat) : ∀ (rgce : Bytes) (st : St), Inv st →
-    (∀ st', runXls ctx fuel rgce st = .ok st' → Inv st') ∧ (∀ m, runXls ctx fuel rgce st = .panic m → XlsPanic m) := by
+theorem decodeXlsb_good (ctx : Ctx) (p : Nat) (r : Bytes) : Good r (decodeXlsb ctx p r) := by
+  unfold decodeXlsb
+  split
+  all_goals try (first | exact good_same r _ | exact good_err r _ | exact decodeFuncVar_good _ _ | exact decodeFuncFixed_good _ _)
+  all_goals try (apply good_need; first | exact good_drop r _ _ | exact good_err r _)
+  case h_34 => apply good_need; apply good_need; exact good_drop r _ _
+  case h_35 =>
+    apply good_need
+    dsimp only
+    apply good_of_drop r 1
+    split
+    all_goals repeat (first | exact good_drop _ _ _ | exact good_err _ _ | apply good_need | apply good_ite)
+  case h_36 =>
+    apply good_need
+    dsimp only
+    apply good_of_drop r 1
+    split
+    all_goals repeat (first | exact good_drop _ _ _ | exact good_err _ _ | apply good_need | apply good_ite)
+  case h_37 => apply good_need; split; exact good_drop r _ _; exact good_err r _
+
+/-! ### the edits never run out of fuel -/
+
+theorem joinArgs_ne_fuel (fargs : List Char) : ∀ (l : List Nat), joinArgs fargs l ≠ .outOfFuel
+  | [] => by simp [joinArgs]
+  | [_] => by simp [joinArgs]
+  | a :: b :: rest => by
+    rw [joinArgs]
+    split
+    · simp
+    · split
+      · simp
+      · have ih := joinArgs_ne_fuel fargs (b :: rest)
+        cases h : joinArgs fargs (b :: rest) with
+        | ok t => simp
+        | err e => simp
+        | panic e => simp
+        | outOfFuel => exact absurd h ih
+
+theorem applyAct_ne_fuel (a : Act) (s : St) : applyAct a s ≠ .outOfFuel := by
+  cases a with
+  | push t => simp [applyAct]
+  | binop op => simp only [applyAct]; split <;> (try split) <;> simp
+  | pre c => simp only [applyAct]; split <;> (try split) <;> simp
+  | percent => simp [applyAct]
+  | paren => simp only [applyAct]; split <;> (try split) <;> simp
+  | sum => simp only [applyAct]; split <;> (try split) <;> simp
+  | spaces c n => simp only [applyAct]; split <;> (try split) <;> simp
+  | nop => simp [applyAct]
+  | func iftab argc chk =>
+    simp only [applyAct]
+    split
+    · simp
+    split
+    · split
+      · simp
+      split
+      · simp
+      split
+      · simp
+      · rename_i name _
+        have := joinArgs_ne_fuel (List.drop (List.headD (List.drop (s.stk.length - argc) s.stk) 0) s.buf)
+          (List.map (fun x => x - List.headD (List.drop (s.stk.length - argc) s.stk) 0) (List.drop (s.stk.length - argc) s.stk) ++
+            [(List.drop (List.headD (List.drop (s.stk.length - argc) s.stk) 0) s.buf).length])
+        split <;> simp_all
+    · split <;> simp
+
+/-! ### the loops -/
+
+theorem runXls_total (ctx : Ctx) (fuel : Nat) : ∀ (rgce : Bytes) (st : St), Inv st → rgce.length ≤ fuel →
+    (∀ st', runXls ctx fuel rgce st = .ok st' → Inv st') ∧ (∀ m, runXls ctx fuel rgce st ≠ .panic m) ∧
+    runXls ctx fuel rgce st ≠ .outOfFuel := by
   induction fuel with
-  | zero => intro rgce st hinv; cases rgce <;> simp [runXls]; exact hinv
+  | zero =>
+    intro rgce st hinv hlen
+    have : rgce = [] := List.length_eq_zero_iff.mp (by omega)
+    subst this
+    simp [runXls]; exact hinv
   | succ f ih =>
-    intro rgce st hinv
+    intro rgce st hinv hlen
     cases rgce with
     | nil => simp [runXls]; exact hinv
     | cons p r =>
       simp only [runXls]
+      have hg := decodeXls_good ctx st.stk.isEmpty p.toNat r
       cases hd : decodeXls ctx st.stk.isEmpty p.toNat r with
       | ok ar =>
         obtain ⟨a, r'⟩ := ar
         simp only
+        have hr' : r'.length ≤ f := by
+          have := hg.2.2 a r' hd
+          simp at hlen; omega
         have hai := applyAct_inv a st hinv
         cases ha : applyAct a st with
-        | ok st' => simp only; exact ih r' st' (hai.1 st' ha)
+        | ok st' => simp only; exact ih r' st' (hai.1 st' ha) hr'
         | err e => simp
-        | panic m' =>
-          simp only [Res.panic.injEq]
-          refine ⟨by simp, ?_⟩
-          intro m hm; subst hm
-          exact Or.inr (Or.inr (Or.inr (hai.2 _ ha)))
-        | outOfFuel => simp
+        | panic m' => exact absurd ha (fun h => hai.2 m' h)
+        | outOfFuel => exact absurd ha (applyAct_ne_fuel a st)
       | err e => simp
-      | panic m' =>
-        simp only [Res.panic.injEq]
-        refine ⟨by simp, ?_⟩
-        intro m hm; subst hm
-        rcases decodeXls_okp ctx _ _ _ _ hd with h | h | h
-        · exact Or.inl h
-        · exact Or.inr (Or.inl h)
-        · exact Or.inr (Or.inr (Or.inl h))
-      | outOfFuel => simp
+      | panic m' => exact absurd hd (hg.1 m')
+      | outOfFuel => exact absurd hd hg.2.1
 
-theorem parseFormulaXls_panic (ctx : Ctx) (rgce : Bytes) (m : String) (h : parseFormulaXls ctx rgce = .panic m) :
-    XlsPanic m := by
-  unfold parseFormulaXls at h
-  have h1 := bind_needLen_panic _ _ _ _ _ h
-  have h2 := bind_needLen_panic _ _ _ _ _ h1
-  dsimp only at h2
-  have hr := runXls_panic ctx ((rgce.drop 2).take (u16 rgce 0)).length ((rgce.drop 2).take (u16 rgce 0)) ⟨[], []⟩ inv_init
-  cases hrun : runXls ctx ((rgce.drop 2).take (u16 rgce 0)).length ((rgce.drop 2).take (u16 rgce 0)) ⟨[], []⟩ with
-  | ok st => rw [hrun] at h2; simp only at h2; split at h2 <;> simp at h2
-  | err e => rw [hrun] at h2; simp at h2
-  | panic m' => rw [hrun] at h2; simp only [Res.panic.injEq] at h2; subst h2; exact hr.2 _ hrun
-  | outOfFuel => rw [hrun] at h2; simp at h2
-/-- xlsb arms additionally index the extern-sheet table unchecked -/
-def OkPanicsB {α : Type} (x : Res α) : Prop :=
-  ∀ m, x = .panic m → m = "slice" ∨ m = "iname - 1" ∨ m = "FTAB_ARGC index" ∨ m = "sheets index"
+/-- what a total function returns: a value or an error -/
+def Total {α : Type} (x : Res α) : Prop := (∀ m, x ≠ .panic m) ∧ x ≠ .outOfFuel
 
-theorem okpb_of {α : Type} (x : Res α) (h : OkPanics x) : OkPanicsB x := by
-  intro m hm; rcases h m hm with h | h | h
-  · exact Or.inl h
-  · exact Or.inr (Or.inl h)
-  · exact Or.inr (Or.inr (Or.inl h))
-theorem okpb_need {α : Type} (r : Bytes) (n : Nat) (f : Unit → Res α) (h : OkPanicsB (f ())) :
-    OkPanicsB (need r n >>= f) := by
-  unfold need; split
-  · intro m hm; simp at hm; exact Or.inl hm.symm
+theorem needLen_bind_total {α : Type} (typ : String) (b : Bytes) (n : Nat) (k : Unit → Res α) (h : Total (k ())) :
+    Total (needLen typ b n >>= k) := by
+  unfold needLen; split
+  · exact ⟨by simp, by simp⟩
   · simpa using h
-theorem okpb_ite {α : Type} (c : Prop) [Decidable c] (x y : Res α) (hx : OkPanicsB x) (hy : OkPanicsB y) :
-    OkPanicsB (if c then x else y) := by split <;> assumption
-theorem okpb_sheet {α : Type} (ctx : Ctx) (i : Nat) (f : List Char → Res α) (h : ∀ s, OkPanicsB (f s)) :
-    OkPanicsB (sheetXlsb ctx i >>= f) := by
-  unfold sheetXlsb; split
-  · simpa using h _
-  · intro m hm; simp at hm; exact Or.inr (Or.inr (Or.inr hm.symm))
-theorem okpb_ok {α : Type} (a : α) : OkPanicsB (Res.ok a) := okpb_of _ (okp_ok a)
-theorem okpb_err {α : Type} (e : String) : OkPanicsB (Res.err e : Res α) := okpb_of _ (okp_err e)
 
-theorem decodeXlsb_okp (ctx : Ctx) (p : Nat) (r : Bytes) : OkPanicsB (decodeXlsb ctx p r) := by
-  unfold decodeXlsb
-  split
-  all_goals try (first | exact okpb_ok _ | exact okpb_err _ | exact okpb_of _ (decodeFuncVar_okp _ _) | exact okpb_of _ (decodeFuncFixed_okp _ _))
-  all_goals try (apply okpb_need; first | exact okpb_ok _ | exact okpb_err _)
-  all_goals try (apply okpb_need; apply okpb_sheet; intro s; apply okpb_need; exact okpb_ok _)
-  case h_34 => apply okpb_need; apply okpb_need; exact okpb_ok _
-  case h_35 =>
-    apply okpb_need
-    dsimp only
-    split
-    all_goals repeat (first | exact okpb_ok _ | exact okpb_err _ | apply okpb_need | apply okpb_ite)
-  case h_36 =>
-    apply okpb_need
-    dsimp only
-    split
-    all_goals repeat (first | exact okpb_ok _ | exact okpb_err _ | apply okpb_need | apply okpb_ite)
-  case h_37 => apply okpb_need; split; exact okpb_ok _; exact okpb_err _
-  case h_50 => apply okpb_need; apply okpb_ite; exact okpb_of _ okp_iname; exact okpb_ok _
-  case h_51 => apply okpb_need; apply okpb_ite; exact okpb_of _ okp_iname; exact okpb_ok _
-  case h_52 => apply okpb_need; apply okpb_ite; exact okpb_of _ okp_iname; exact okpb_ok _
+theorem parseFormulaXls_total (ctx : Ctx) (rgce : Bytes) : Total (parseFormulaXls ctx rgce) := by
+  unfold parseFormulaXls
+  apply needLen_bind_total
+  apply needLen_bind_total
+  dsimp only
+  have hr := runXls_total ctx ((rgce.drop 2).take (u16 rgce 0)).length ((rgce.drop 2).take (u16 rgce 0)) ⟨[], []⟩
+    inv_init (Nat.le_refl _)
+  cases hrun : runXls ctx ((rgce.drop 2).take (u16 rgce 0)).length ((rgce.drop 2).take (u16 rgce 0)) ⟨[], []⟩ with
+  | ok st => simp only; split <;> exact ⟨by simp, by simp⟩
+  | err e => exact ⟨by simp, by simp⟩
+  | panic m => exact absurd hrun (hr.2.1 m)
+  | outOfFuel => exact absurd hrun hr.2.2
 
-/-- the panics the xlsb decoder can raise -/
-def XlsbPanic (m : String) : Prop :=
-  m = "slice" ∨ m = "iname - 1" ∨ m = "FTAB_ARGC index" ∨ m = "sheets index" ∨ m = "FTAB index"
-
-theorem runXlsb_panic (ctx : Ctx) (fuel : Nat) : ∀ (rgce : Bytes) (st : St), Inv st →
-    (∀ st', runXlsb ctx fuel rgce st = .ok st' → Inv st') ∧ (∀ m, runXlsb ctx fuel rgce st = .panic m → XlsbPanic m) := by
+theorem runXlsb_total (ctx : Ctx) (fuel : Nat) : ∀ (rgce : Bytes) (st : St), Inv st → rgce.length ≤ fuel →
+    (∀ st', runXlsb ctx fuel rgce st = .ok st' → Inv st') ∧ (∀ m, runXlsb ctx fuel rgce st ≠ .panic m) ∧
+    runXlsb ctx fuel rgce st ≠ .outOfFuel := by
   induction fuel with
-  | zero => intro rgce st hinv; cases rgce <;> simp [runXlsb]; exact hinv
+  | zero =>
+    intro rgce st hinv hlen
+    have : rgce = [] := List.length_eq_zero_iff.mp (by omega)
+    subst this
+    simp [runXlsb]; exact hinv
   | succ f ih =>
-    intro rgce st hinv
+    intro rgce st hinv hlen
     cases rgce with
     | nil => simp [runXlsb]; exact hinv
     | cons p r =>
+      have hrl : r.length ≤ f := by simp at hlen; omega
       simp only [runXlsb]
       by_cases hm : isMemFunc p.toNat = true
       · simp only [hm, if_true]
-        by_cases h1 : r.length < 2
-        · simp only [h1, if_true]
-          exact ⟨by simp, fun m h => by simp at h; exact Or.inl h.symm⟩
-        simp only [h1, if_false]
-        by_cases h2 : (r.drop 2).length < u16 r 0
-        · simp only [h2, if_true]
-          exact ⟨by simp, fun m h => by simp at h; exact Or.inl h.symm⟩
-        simp only [h2, if_false]
-        by_cases he : ((r.drop 2).take (u16 r 0)).isEmpty = true
-        · simp only [he, if_true]
-          exact ih _ _ (inv_push [] hinv)
-        · have he' : ((r.drop 2).take (u16 r 0)).isEmpty = false := by simpa using he
-          simp only [he', Bool.false_eq_true, if_false]
-          have hsub := ih ((r.drop 2).take (u16 r 0)) ⟨[], []⟩ inv_init
-          cases hr : runXlsb ctx f ((r.drop 2).take (u16 r 0)) ⟨[], []⟩ with
-          | ok s =>
-            simp only [finishXlsb]
-            by_cases hl : s.stk.length = 1
-            · simp only [hl, if_true]
-              exact ih _ _ (inv_push s.buf hinv)
-            · simp only [hl, if_false]; simp
+        cases h1 : need false r 2 with
+        | err e => simp
+        | panic m => simp [need] at h1; split at h1 <;> simp at h1
+        | outOfFuel => simp [need] at h1; split at h1 <;> simp at h1
+        | ok u =>
+          simp only
+          cases h2 : need false (r.drop 2) (u16 r 0) with
           | err e => simp
-          | panic m' =>
-            simp only [Res.panic.injEq]
-            exact ⟨by simp, fun m h => by subst h; exact hsub.2 _ hr⟩
-          | outOfFuel => simp
+          | panic m => simp [need] at h2; split at h2 <;> simp at h2
+          | outOfFuel => simp [need] at h2; split at h2 <;> simp at h2
+          | ok u2 =>
+            simp only
+            have hsub : ((r.drop 2).take (u16 r 0)).length ≤ f := by simp; omega
+            have hrest : ((r.drop 2).drop (u16 r 0)).length ≤ f := by simp; omega
+            by_cases he : ((r.drop 2).take (u16 r 0)).isEmpty = true
+            · simp only [he, if_true]
+              exact ih _ _ (inv_push [] hinv) hrest
+            · have he' : ((r.drop 2).take (u16 r 0)).isEmpty = false := by simpa using he
+              simp only [he', Bool.false_eq_true, if_false]
+              have hs := ih ((r.drop 2).take (u16 r 0)) ⟨[], []⟩ inv_init hsub
+              cases hr : runXlsb ctx f ((r.drop 2).take (u16 r 0)) ⟨[], []⟩ with
+              | ok s =>
+                simp only [finishXlsb]
+                by_cases hl : s.stk.length = 1
+                · simp only [hl, if_true]
+                  exact ih _ _ (inv_push s.buf hinv) hrest
+                · simp only [hl, if_false]; simp
+              | err e => simp
+              | panic m' => exact absurd hr (hs.2.1 m')
+              | outOfFuel => exact absurd hr hs.2.2
       · have hm' : isMemFunc p.toNat = false := by simpa using hm
         simp only [hm', Bool.false_eq_true, if_false]
+        have hg := decodeXlsb_good ctx p.toNat r
         cases hd : decodeXlsb ctx p.toNat r with
         | ok ar =>
           obtain ⟨a, r'⟩ := ar
           simp only
+          have hr' : r'.length ≤ f := by
+            have := hg.2.2 a r' hd
+            omega
           have hai := applyAct_inv a st hinv
           cases ha : applyAct a st with
-          | ok st' => simp only; exact ih r' st' (hai.1 st' ha)
+          | ok st' => simp only; exact ih r' st' (hai.1 st' ha) hr'
           | err e => simp
-          | panic m' =>
-            simp only [Res.panic.injEq]
-            refine ⟨by simp, ?_⟩
-            intro m hm; subst hm
-            exact Or.inr (Or.inr (Or.inr (Or.inr (hai.2 _ ha))))
-          | outOfFuel => simp
+          | panic m' => exact absurd ha (fun h => hai.2 m' h)
+          | outOfFuel => exact absurd ha (applyAct_ne_fuel a st)
         | err e => simp
-        | panic m' =>
-          simp only [Res.panic.injEq]
-          refine ⟨by simp, ?_⟩
-          intro m hm; subst hm
-          rcases decodeXlsb_okp ctx _ _ _ hd with h | h | h | h
-          · exact Or.inl h
-          · exact Or.inr (Or.inl h)
-          · exact Or.inr (Or.inr (Or.inl h))
-          · exact Or.inr (Or.inr (Or.inr (Or.inl h)))
-        | outOfFuel => simp
+        | panic m' => exact absurd hd (hg.1 m')
+        | outOfFuel => exact absurd hd hg.2.1
 
-theorem parseFormulaXlsb_panic (ctx : Ctx) (rgce : Bytes) (m : String) (h : parseFormulaXlsb ctx rgce = .panic m) :
-    XlsbPanic m := by
-  unfold parseFormulaXlsb at h
-  split at h
-  · simp at h
-  have hr := runXlsb_panic ctx rgce.length rgce ⟨[], []⟩ inv_init
+theorem parseFormulaXlsb_total (ctx : Ctx) (rgce : Bytes) : Total (parseFormulaXlsb ctx rgce) := by
+  unfold parseFormulaXlsb
+  split
+  · exact ⟨by simp, by simp⟩
+  have hr := runXlsb_total ctx rgce.length rgce ⟨[], []⟩ inv_init (Nat.le_refl _)
   cases hrun : runXlsb ctx rgce.length rgce ⟨[], []⟩ with
-  | ok st => rw [hrun] at h; simp only [finishXlsb] at h; split at h <;> simp at h
-  | err e => rw [hrun] at h; simp at h
-  | panic m' => rw [hrun] at h; simp only [Res.panic.injEq] at h; subst h; exact hr.2 _ hrun
-  | outOfFuel => rw [hrun] at h; simp at h
+  | ok st => simp only [finishXlsb]; split <;> exact ⟨by simp, by simp⟩
+  | err e => exact ⟨by simp, by simp⟩
+  | panic m => exact absurd hrun (hr.2.1 m)
+  | outOfFuel => exact absurd hrun hr.2.2
+
+theorem definedNameXls_total (rgce : Bytes) : Total (definedNameXls rgce) := by
+  unfold definedNameXls
+  split
+  · exact ⟨by simp, by simp⟩
+  · dsimp only
+    split
+    all_goals first
+      | (unfold needDn; apply needLen_bind_total; exact ⟨by simp, by simp⟩)
+      | exact ⟨by simp, by simp⟩
 end Formula
